@@ -1,1 +1,3 @@
 pub mod c04;
+pub mod c05;
+pub mod common;
